@@ -5,10 +5,12 @@
 package stats
 
 import (
+	"bytes"
 	"encoding/json"
 	"fmt"
 	"hash/fnv"
 	"os"
+	"path/filepath"
 	"sort"
 	"strings"
 	"sync"
@@ -147,4 +149,44 @@ func Tier() string {
 		return t
 	}
 	return "quick"
+}
+
+// Inflight records the case that is about to be handed to code which may
+// kill the process in a way no recover() can catch (Go's "fatal error: stack
+// overflow", concurrent map writes, ...).  If the process dies the driver
+// finds the file, reports the key on its first line as the violation and
+// keeps the file as the replay; InflightDone removes it.
+func Inflight(key string, payload []byte) {
+	dir := os.Getenv("VERIF_WORK")
+	if dir == "" {
+		dir = os.TempDir()
+	}
+	os.MkdirAll(dir, 0o755)
+	buf := append([]byte("VKEY="+key+"\n"), payload...)
+	os.WriteFile(filepath.Join(dir, "inflight.input"), buf, 0o644)
+}
+
+func InflightDone() {
+	dir := os.Getenv("VERIF_WORK")
+	if dir == "" {
+		dir = os.TempDir()
+	}
+	os.Remove(filepath.Join(dir, "inflight.input"))
+}
+
+// InflightReplay returns the payload of a saved in-flight case when the
+// driver asks for its replay (VERIF_INFLIGHT), else nil.
+func InflightReplay() []byte {
+	p := os.Getenv("VERIF_INFLIGHT")
+	if p == "" {
+		return nil
+	}
+	b, err := os.ReadFile(p)
+	if err != nil {
+		return nil
+	}
+	if i := bytes.IndexByte(b, '\n'); i >= 0 && bytes.HasPrefix(b, []byte("VKEY=")) {
+		return b[i+1:]
+	}
+	return b
 }
